@@ -4,9 +4,9 @@
 (* code.  One state per consumed event; events are independent calls, so   *)
 (* the trace is cut into chunks that TLC's workers walk in parallel.  The   *)
 (* verdict of every event is total: a set of failing clause names (empty = *)
-(* accepted) printed as <<"V", id, clauses>>.                              *)
+(* accepted) printed as JSON {"V": id, "c": [clauses]}.                              *)
 (***************************************************************************)
-EXTENDS Json, IOUtils, TLC, JSearch, JArrays, JProcess, JRfa, JRfaRel
+EXTENDS Json, IOUtils, TLC, JSearch, JArrays, JProcess, JRfa, JRfaRel, JMatch
 
 Trace == JsonDeserialize(IOEnv.TRACE_FILE)
 Chunk == atoi(IOEnv.TRACE_CHUNK)
@@ -45,7 +45,9 @@ Verdict(e) ==
       [] e.fn = "rfa_reject" -> V_rfa_reject(e)
       [] e.fn = "funfit" -> V_funfit(e)
       [] e.fn = "rfa_rel" -> V_rfa_rel(e)
+      [] e.fn = "match" -> V_match(e)
       [] OTHER -> {"machinery.unknown_fn"}
 
-Judge == l > 0 => PrintT(<<"V", Trace[l].id, Verdict(Trace[l])>>)
+\* one line of JSON per event (TLC pretty-prints long tuples over several lines; a JSON string stays on one)
+Judge == l > 0 => PrintT(ToJson([V |-> Trace[l].id, c |-> Verdict(Trace[l])]))
 =============================================================================
